@@ -44,7 +44,9 @@ def setup_worker(ctx):
                     mon.events["contract_nonnull/" + _name] += 1
                     try:
                         f, t = res.t_from, res.t_to
-                        n = (date(t.year, t.month, t.day) - date(f.year, f.month, f.day)).days
+                        # the range "really is N days long": with clock times on its ends the length is taken to the minute
+                        ln = datetime(t.year, t.month, t.day, t.hour or 0, t.minute or 0) - datetime(f.year, f.month, f.day, f.hour or 0, f.minute or 0)
+                        n = ln.days if ln == timedelta(days=ln.days) else None
                     except Exception:
                         n = None
                     if per is None or n != per * dur[0].value or V.val(res) != V.val(iv[0]):
@@ -99,6 +101,12 @@ def gen_cases(tier, seed):
                     if tier != "thorough" and (y + mo + h + n) % 3:
                         continue
                     cases.append({"k": "for", "d": date(y, mo, dd).isoformat(), "h": h, "mi": mi, "j": "for" if n % 2 == 0 else "für", "n": n, "u": u, "w": w, "word": False})
+    # '<N days> <range whose ends carry clock times>': N whole days plus some hours is not N days
+    for i in range(200 if tier == "thorough" else 60):
+        a = date(2016, 1, 1) + timedelta(days=r.randrange(5000))
+        n = r.choice([1, 2, 3, 5])
+        cases.append({"k": "rangedur-timed", "a": a.isoformat(), "n": n, "h1": r.choice([0, 8, 9]), "h2": r.choice([7, 18, 23]), "u": r.choice(["days", "nights"]),
+                      "order": ["dur-range", "range-dur", "range-für-dur"][i % 3]})
     # '<N days/nights> <date range>'
     for i in range(600 if tier == "thorough" else 120):
         a = date(2016, 1, 1) + timedelta(days=r.randrange(5000))
@@ -139,6 +147,8 @@ def run_case(case, ctx):
         res = _dur(case, ctx)
     elif k == "for":
         res = _for(case, ctx)
+    elif k == "rangedur-timed":
+        res = _rangedur_timed(case, ctx)
     else:
         res = _rangedur(case, ctx)
     if ctx["contract_breaches"] and res["st"] != "viol":
@@ -197,6 +207,25 @@ def _for(case, ctx):
     mech = "beam-truncation" if rE == exp else "wrong"
     what = "end" if (got and got[0] == "I" and got[1] == frm) else "shape"
     return C.viol("%s/for/%s%s/%s" % (mech, u, "/timed" if case["h"] is not None else "", what), "%r: expected %s, got %s via %s" % (text, V.show(exp), V.show(got), C.obs(r)), key, cls)
+
+
+def _rangedur_timed(case, ctx):
+    a = date.fromisoformat(case["a"])
+    b = a + timedelta(days=case["n"])
+    de = case["order"] == "range-für-dur"
+    words = {"days": ("days", "tage"), "nights": ("nights", "nächte")}[case["u"]]
+    dur = "%d %s" % (case["n"], words[1] if de else words[0])
+    rng = "%02d.%02d.%04d %02d:00 - %02d.%02d.%04d %02d:00" % (a.day, a.month, a.year, case["h1"], b.day, b.month, b.year, case["h2"])
+    text = {"dur-range": "%s %s" % (dur, rng), "range-dur": "%s %s" % (rng, dur), "range-für-dur": "%s für %s" % (rng, dur)}[case["order"]]
+    key = "rangedur-timed|" + text
+    cls = "rangedur-timed/" + case["order"]
+    r = C.api(ctx, text, TS0)
+    prod = [str(x) for x in (r.production or ())] if r else []
+    used = [p for p in prod if p in CONTRACT_RULES]
+    if used and case["h1"] != case["h2"]:
+        return C.viol("rangedur/non-matching-accepted", "%r: a range of %d days and %d hours was accepted for %d %s via %s" % (
+            text, case["n"], case["h2"] - case["h1"], case["n"], case["u"], used), key, cls)
+    return C.ok(key, cls, nt=bool(ctx["mon"].case_rules), obs_={"text": text, "got": V.show(C.resv(r)), "note": "not accepted as N-day range"})
 
 
 def _rangedur(case, ctx):
